@@ -153,6 +153,8 @@ def main():
     # ---------------- 1. translator + build + audit --------------------------------------
     broken = []          # names of obligations / ties that no longer check
     build_log = ""
+    _lk = common.lake_lock()          # held from the translator to the private copy of the driver binary (released below / at exit)
+    _lk.__enter__()
     tstat = run_translator(spec.get("generated", []))
     for m, st in tstat.items():
         if not st.get("ok"):
@@ -203,6 +205,7 @@ def main():
 
     # ---------------- 2. correspondence + oracles ---------------------------------------
     drv = Driver(spec.get("driver", "driver_" + prop.lower())) if driver_ok else None
+    _lk.__exit__(None, None, None)
     if drv is not None and not drv.available:
         drv = None
         broken.append("driver binary missing")
